@@ -6,7 +6,7 @@ from datetime import timedelta
 from .common import *   # noqa: F401,F403
 from . import instr_gen as ig
 
-LEAF = ['Leaf_nps', 'Leaf_query', 'Leaf_chart', 'Leaf_fromfile']      # translated functions this property's model relies on (Tie/<name>.v)
+LEAF = ['Leaf_nps', 'Leaf_query', 'Leaf_chart', 'Leaf_fromfile', 'Leaf_meta']      # translated functions this property's model relies on (Tie/<name>.v)
 RULE = ("charts with 1-3 tracks over 1-5 segment tempo maps (incl. note-less and absent tracks); per chart 10-25 calls of chart.notes_per_second(instrument, difficulty, start, end) with "
         "bounds given as ticks, as timestamps, or omitted: bounds coinciding exactly with note start times, with each other (zero length), reversed, explicit tick 0 / timestamp 0 ends, "
         "starts after the last note onset (count 0), negative ticks, intervals of one to ten whole days (exactly, and plus a second or a microsecond) by time and by tick, tick- and time-typed twins of the same interval; judged on the implementation's own chart: the float (bit pattern) equals "
